@@ -78,27 +78,41 @@ theorem lists_available :
     (SQRTINV_QUAD_RULES.all fun k => sqrtinv_quadrature_rule.any fun e => decide (e.k1 = k.1) && decide (e.k2 = k.2)) = true :=
   ⟨available_LOG_QUAD_RULES, available_LOG_LOG_QUAD_RULES, available_SQRT_QUAD_RULES, available_SQRTINV_QUAD_RULES⟩
 
-/-- the scheme constructors of `src/quadrature.py` (`N = (N_poly + 1) // 2`, regenerated from the source): every
-table key `N` of the three Gauss families is the key computed for the odd degree `2N − 1`, and the table
-under that key is exact at least to the degree the constructor relies on (`keyOK`) -/
+/-- the scheme constructors of `src/quadrature.py` (key maps `N = (N_poly + a) // b + c` and the odd-degree
+assertions, regenerated from the source): **whatever degree `d` a constructor is called with, if it hands out the
+table entry `e` then `d` is at most the degree of exactness certified for `e`** (`gaussDeg e.xs = 2n − 1`; the
+moments up to that degree are the content of `EntryExact`), and every key promises what `keyOK` records.
+(On the pinned tree `gauss_x_quadrature_scheme` used `(N_poly + 1) // 2`, which hands out the `N`-point rule for
+the even degree `2N`: finding F10, repaired.) -/
 theorem constructors_ok :
-    (gauss_sqrtinv_quadrature_rule.all fun e =>
-      (decide (e.k1 ≤ 0) || decide (ctorKey_gaussSqrtinv (2 * e.k1 - 1) = e.k1)) && keyOK .gaussSqrtinv e.k1 e.xs) = true ∧
+    (∀ (d : Int) (e : Entry), e ∈ gauss_sqrtinv_quadrature_rule → (ctorOdd_gaussSqrtinv = true → d % 2 = 1) →
+        ctorKey_gaussSqrtinv d = e.k1 → d ≤ gaussDeg e.xs) ∧
+    (∀ (d : Int) (e : Entry), e ∈ gauss_x_quadrature_rule → (ctorOdd_gaussX = true → d % 2 = 1) →
+        ctorKey_gaussX d = e.k1 → d ≤ gaussDeg e.xs) ∧
+    (∀ (d : Int) (e : Entry), e ∈ gauss_log_quadrature_rule → (ctorOdd_gaussLog = true → d % 2 = 1) →
+        ctorKey_gaussLog d = e.k1 → d ≤ gaussDeg e.xs) :=
+  ⟨fun d e he ho h => ctor_requested_ok_gaussSqrtinv d e he ho h,
+   fun d e he ho h => ctor_requested_ok_gaussX d e he ho h,
+   fun d e he ho h => ctor_requested_ok_gaussLog d e he ho h⟩
+
+/-- the keys promise what the constructors rely on -/
+theorem constructor_keys_ok :
+    (gauss_sqrtinv_quadrature_rule.all fun e => keyOK .gaussSqrtinv e.k1 e.xs) = true ∧
     (gauss_x_quadrature_rule.all fun e => keyOK .gaussX e.k1 e.xs) = true ∧
     (gauss_log_quadrature_rule.all fun e => keyOK .gaussLog e.k1 e.xs) = true := by
-  refine ⟨constructors_ok_gaussSqrtinv, ?_, ?_⟩
+  refine ⟨?_, ?_, ?_⟩
+  · have h := constructors_ok_gaussSqrtinv
+    rw [List.all_eq_true] at h ⊢
+    intro e he; have := h e he; simp only [Bool.and_eq_true] at this; exact this.2
   · have h := constructors_ok_gaussX
     rw [List.all_eq_true] at h ⊢
-    intro e he
-    have := h e he
-    simp only [Bool.and_eq_true] at this
-    exact this.2
+    intro e he; have := h e he; simp only [Bool.and_eq_true] at this; exact this.2
   · have h := constructors_ok_gaussLog
     rw [List.all_eq_true] at h ⊢
-    intro e he
-    have := h e he
-    simp only [Bool.and_eq_true] at this
-    exact this.2
+    intro e he; have := h e he; simp only [Bool.and_eq_true] at this; exact this.2
+
+/-- non-vacuity: degree 10 is accepted by `gauss_x_quadrature_scheme` and lands on a tabulated key -/
+example : ∃ e ∈ gauss_x_quadrature_rule, ctorKey_gaussX 10 = e.k1 := by decide +kernel
 
 /-- the tolerance is `1e-30` everywhere except for the two recorded entries -/
 theorem litTol_default (f : Family) (k1 : Int) (h : ¬ (f = .gaussLog ∧ (k1 = 15 ∨ k1 = 31))) :
